@@ -58,6 +58,10 @@ for X in ('a', 'g'):
                                               f'and awaited(self._{X}_inv).dtype is self.inv_dtype)'),
             ('alone_nothing_sent', 'implies(group_size(group) == 1, trace() == old(trace()))'),
             ('one_broadcast_otherwise', 'implies(group_size(group) != 1, len(trace()) == len(old(trace())) + 1)'),
+            # C13: symmetry-aware mode sends the packed triangle of the (symmetric) inverse
+            ('elements_sent', f'implies(group_size(group) != 1, trace()[len(trace()) - 1][3] == '
+                              f'sent_numel(old(awaited(self._{X}_inv).shape) if old(self._{X}_inv) is not None else old(awaited(self._{X}_factor).shape), '
+                              f'self.symmetric_factors and self.symmetry_aware))'),
             ('stays_square', f'is_square(awaited(self._{X}_inv).shape)'),
             ('factor_kept', f'awaited(self._{X}_factor) is old(awaited(self._{X}_factor))'),
         ],
@@ -80,6 +84,7 @@ contract(
                                'and awaited(self._a_inv) is old(awaited(self._a_inv)) and awaited(self._g_inv) is old(awaited(self._g_inv))'),
     ],
     modifies=['self._grad', 'self._a_inv', 'self._g_inv', '*.resolved', 'ghost:next_sid'],
+    ghost_sets=[('self.gh_pg_damping', 'damping')],      # which damping this preconditioning was asked to use
 )
 contract(
     f'{I}.memory_usage', props=['C13'], result=KDict(KStr, KInt),
@@ -172,6 +177,7 @@ contract(
                                        'self.module.module.weight.grad is old(self.module.module.weight.grad)'),
     ],
     modifies=['self._grad'] + [f'self.{f}' for f in SO] + ['*.resolved', 'ghost:next_sid'],
+    ghost_sets=[('self.gh_pg_damping', 'damping')],
 )
 contract(
     f'{E}.memory_usage', props=['C13'], result=KDict(KStr, KInt),
